@@ -387,6 +387,38 @@ func TestVerifC06(t *testing.T) {
 			}
 		}
 	}
+	// inputs declared by workflow_call AND workflow_dispatch (merged): the dispatch declaration of
+	// an input loses its type (no type: key = unknown), the call declaration keeps boolean / number / string
+	inCons := []string{"inputs.flag", "startsWith(inputs.flag, 't')", "contains(inputs.flag, 'x')", "inputs.flag < 10", "inputs.flag.foo", "inputs.flag[0]", "inputs.flag == 'a'", "format('{0}', inputs.flag)", "!inputs.flag", "inputs.other"}
+	for _, callTy := range []string{"boolean", "number", "string"} {
+		for _, dispTy := range []string{"string", "boolean", "number", "choice"} {
+			for _, extra := range []bool{false, true} {
+				for _, cons := range inCons {
+					idx++
+					if !r.Mine(idx) {
+						continue
+					}
+					mk := func(dispatchType string) string {
+						var b strings.Builder
+						b.WriteString("on:\n  workflow_call:\n    inputs:\n      flag:\n        type: " + callTy + "\n")
+						if extra {
+							b.WriteString("      other:\n        type: string\n")
+						}
+						b.WriteString("  workflow_dispatch:\n    inputs:\n      flag:\n        description: d\n")
+						if dispatchType != "" {
+							b.WriteString("        type: " + dispatchType + "\n")
+							if dispatchType == "choice" {
+								b.WriteString("        options: [a, b]\n")
+							}
+						}
+						b.WriteString("jobs:\n  a:\n    runs-on: ubuntu-latest\n    steps:\n      - run: echo ${{ " + cons + " }}\n")
+						return b.String()
+					}
+					c06E2ECompare(r, mk(dispTy), mk(""), "dispatch-input-type-dropped")
+				}
+			}
+		}
+	}
 	// known action / unknown action; declared job outputs / reusable workflow call
 	outCons := []string{"steps.s.outputs.ref", "steps.s.outputs.nope", "steps.s.outputs.ref.x", "steps.s.outputs.*", "steps.s.conclusion", "steps.s.nope", "steps.s.outputs['commit']", "contains(steps.s.outputs.ref, 'a')"}
 	for _, c := range append([]string{}, outCons...) {
